@@ -11,6 +11,7 @@
   trailing digest without parameters by design).  `(H x).length = 32` is SHA-256's output size.
 -/
 import NdnVerif.C03.LemmasEnc
+import NdnVerif.C03.LemmasEncPlan
 import NdnVerif.C03.LemmasFinal
 import NdnVerif.C03.Examples
 import NdnVerif.C03.LemmasLiftRd
@@ -23,6 +24,14 @@ theorem lengthPass_exact :
     ∧ (∀ k : KeyLoc, (encKeyLoc k).length = keyLocLen k) ∧ (∀ s : SigInfo, (encSigInfo s).length = sigInfoLen s)
     ∧ (∀ ns : List Name, (encLinks ns).length = linksLen ns) :=
   ⟨encSpecs.nameLen_eq, encSpecs.metaLen_eq, encSpecs.keyLocLen_eq, encSpecs.sigInfoLen_eq, encSpecs.linksLen_eq⟩
+
+/-- the wire plan computed by `Init` matches what `EncodeInto` writes: same number of buffers, every
+    allocated buffer exactly the announced size (0-entries: the caller's nocopy buffers and the
+    signature slot) — for every Data / Interest, no side condition -/
+theorem wirePlan_exact :
+    (∀ d : DataIn, PlanMatches (dataPlan d) (dataSegs d))
+    ∧ (∀ (i : InterestIn) (fn : Name), PlanMatches (interestPlan i fn) (interestSegs i fn)) :=
+  ⟨dataPlan_matches, interestPlan_matches⟩
 
 /-- MakeData: the joined output wire is ONE TLV of type 6 whose length field is exact, with the
     actual signature length re-encoded and the bytes handed to the signer = the signed portion -/
